@@ -23,7 +23,8 @@
    SVD DATA.  The squared singular values of each centred neighbourhood and the inside-count of the ellipsoid test
    enter as VALUES: in a correspondence case as recorded lists (squares of the floats numpy.linalg.svd returned,
    exact rationals), in the theorems as section variables [sv2], [ins] (functions of the scale D, the sample and
-   its neighbour list) with explicit hypotheses.  For d = 1 they are computed here ([sv2_1], [ins_1]) so no
+   its neighbour list) with explicit hypotheses.  (Model/GeoEllipsoid.v computes the inside-count exactly for every d and
+   gives the d = 2 closed form.)  For d = 1 they are computed here ([sv2_1], [ins_1]) so no
    oracle remains:  sigma_0^2 = sum of squared centred values = (1/(2(k+1))) * sum over ordered pairs of the
    neighbourhood of the squared distance.
    REAL LAYER.  The estimate is an expression tree of Model/Itv.v.  The guards `> 1e-12` are decided exactly on the
